@@ -129,7 +129,12 @@ def _get_binding(obj: tp.Callable) -> AbstractBinding:
         unmarshaller: unmarshals.AbstractUnmarshaller = unmarshals.unmarshaller(
             param.annotation
         )
-        binding[name] = binding[i] = unmarshaller
+        binding[i] = unmarshaller
+        # Only parameters which may be passed by keyword are addressable by name;
+        #   any other keyword (including one re-using the name of a positional-only
+        #   or variadic parameter) belongs to `**kwargs`.
+        if param.kind in (param.POSITIONAL_OR_KEYWORD, param.KEYWORD_ONLY):
+            binding[name] = unmarshaller
         has_kwd_only = has_kwd_only or param.kind == inspect.Parameter.KEYWORD_ONLY
         has_pos_or_kwd = (
             has_pos_or_kwd or param.kind == inspect.Parameter.POSITIONAL_OR_KEYWORD
